@@ -17,12 +17,16 @@ class ExecMixin:
             self.exec_stmt(st, env)
 
     def exec_stmt(self, st, env):
-        self.tick()
+        self.steps += 1
         if self.stack:
             self.stack[-1].lineno = st.lineno
-        m = getattr(self, "s_" + type(st).__name__, None)
+        tp = type(st)
+        m = self._sdisp.get(tp)
         if m is None:
-            raise Unsupported(f"statement {type(st).__name__} at {self.where()}")
+            m = getattr(self, "s_" + tp.__name__, None)
+            if m is None:
+                raise Unsupported(f"statement {tp.__name__} at {self.where()}")
+            self._sdisp[tp] = m
         m(st, env)
 
     def s_Expr(self, st, env):
